@@ -71,26 +71,40 @@ theorem C17_accepted_total_merge (n c0 T bi : Nat) (hc0 : 0 < c0) (hT : 0 < T) (
 
 example : validateMerge ⟨[2], [4]⟩ = .ok () ∧ sliceBlocks 2 4 7 = [2, 3] ∧ nblocks 7 2 = 4 := by decide
 
-/-- repeat, full statement: whatever `validateRepeat` accepts addresses an existing input block. -/
+/-- repeat, full statement: whatever `validateRepeat` accepts addresses an existing input block along the repeated
+axis (`i` = the axis NumPy means, i.e. `axis` normalised). -/
 def C17_repeat_total : Prop :=
-  ∀ (p : RepeatP) (r : Int) (n c bi : Nat), p.repeats = .int r → validateRepeat p = .ok () → 0 < c →
-    bi < nblocks (n * r.toNat) c → ∃ k, repeatKey r.toNat bi = some k ∧ k < nblocks n c
+  ∀ (p : RepeatP) (r : Int) (i n c bi : Nat), p.repeats = .int r → validateRepeat p = .ok () →
+    validateAxis p.axis p.shape.length = .ok i → 0 < c →
+    bi < nblocks (n * r.toNat) c → ∃ k, repeatKeyAt p.axis i r.toNat bi = some k ∧ k < nblocks n c
 
-/-- … holds when `repeats ≥ 1` (`bi // repeats` stays below the input's block count). -/
-theorem C17_repeat_total_partial (r n c bi : Nat) (hr : 1 ≤ r) (hc : 0 < c) (hbi : bi < nblocks (n * r) c) :
-    ∃ k, repeatKey r bi = some k ∧ k < nblocks n c := by
+/-- … holds when `repeats ≥ 1` and the axis is given as a non-negative number (`bi // repeats` stays below the
+input's block count). -/
+theorem C17_repeat_total_partial (axis : Int) (i r n c bi : Nat) (hax : (i : Int) = axis) (hr : 1 ≤ r) (hc : 0 < c)
+    (hbi : bi < nblocks (n * r) c) : ∃ k, repeatKeyAt axis i r bi = some k ∧ k < nblocks n c := by
   have hr0 : r ≠ 0 := by omega
-  exact ⟨bi / r, by simp [repeatKey, hr0], repeat_key_lt n c r bi hc hr hbi⟩
+  exact ⟨bi / r, by simp [repeatKeyAt, hax, repeatKey, hr0], repeat_key_lt n c r bi hc hr hbi⟩
 
-example : repeatKey 3 5 = some 1 ∧ (5 : Nat) < nblocks (4 * 3) 2 ∧ (1 : Nat) < nblocks 4 2 := by decide
+example : repeatKeyAt 0 0 3 5 = some 1 ∧ (5 : Nat) < nblocks (4 * 3) 2 ∧ (1 : Nat) < nblocks 4 2 := by decide
 
-/-- … and fails for `repeats = 0`, which `repeat` accepts: the single (empty) output block evaluates `0 // 0`
-inside the task (ZeroDivisionError). -/
+/-- … fails for `repeats = 0`, which `repeat` accepts: the single (empty) output block evaluates `0 // 0` inside the
+task (ZeroDivisionError) … -/
 theorem C17_repeat_total_fails : ¬ C17_repeat_total := by
   intro h
-  have := h ⟨[4], .int 0, 0⟩ 0 4 2 0 rfl (by decide) (by omega) (by decide)
+  have := h ⟨[4], .int 0, 0⟩ 0 0 4 2 0 rfl (by decide) (by rfl) (by omega) (by decide)
   obtain ⟨k, hk, _⟩ := this
-  simp [repeatKey] at hk
+  simp [repeatKeyAt, repeatKey] at hk
+
+/-- … and for a negative axis other than -1 (-1 is refused): the key function compares positions with the
+un-normalised axis, never divides, and out block 3 of 4 addresses input block 3 of 2. -/
+theorem C17_repeat_negative_axis_fails : ¬ C17_repeat_total := by
+  intro h
+  have := h ⟨[4, 1], .int 2, -2⟩ 2 0 4 2 3 rfl (by decide) (by rfl) (by omega) (by decide)
+  obtain ⟨k, hk, hlt⟩ := this
+  simp [repeatKeyAt] at hk
+  subst hk
+  revert hlt
+  decide
 
 /-- concat: for an out block that starts inside the concatenated axis, `_array_slices` never indexes outside
 `offsets` (the bisect stays inside) and every designated block `(array, block)` exists. -/
@@ -160,7 +174,8 @@ theorem C17_region_total_partial (p : RegionP) (s : Nat) (hs : p.start = some s)
     (hv : validateRegion p = .ok ()) (hL : 0 < p.srcLen) (bi : Nat)
     (hlo : p.lo / p.tgtChunk ≤ bi) (hhi : bi ≤ (p.hi - 1) / p.tgtChunk) :
     0 ≤ regionKey p bi ∧ (regionKey p bi).toNat < nblocks p.srcLen p.srcChunk := by
-  unfold validateRegion at hv
+  have hne : (p.start.isNone && p.stop.isNone && p.step.isNone) = false := by simp [hs]
+  simp only [validateRegion, hne, Bool.false_eq_true, if_false] at hv
   split at hv
   · cases hv
   · rename_i hal
